@@ -200,6 +200,19 @@ func NewClient(conn io.ReadWriteCloser, o ...ClientOpt) (*Client, error) {
 			return nil, ErrBadVersionString
 		}
 		c.version = version
+
+		// The server may announce a smaller maximum message size than the one
+		// we asked for; everything sent from here on has to fit in it.
+		if rversion.MSize < c.messageSize {
+			if rversion.MSize <= msgDotLRegistry.largestFixedSize {
+				return nil, &ErrMessageTooLarge{
+					size:  rversion.MSize,
+					msize: msgDotLRegistry.largestFixedSize,
+				}
+			}
+			c.messageSize = rversion.MSize
+			c.payloadSize = roundDown(c.messageSize-msgDotLRegistry.largestFixedSize, 512)
+		}
 		break
 	}
 	return c, nil
